@@ -42,6 +42,9 @@ Fails(r) == CASE r.ev = "expr" -> ExprFails(r)
               \* a shared subtree used plainly and under a remap, imported into a fresh and into a long-lived context
               [] r.ev = "shared-import" -> (IF r.panic = "" /\ \A k \in 1..Len(r.evals) : SameZ(r.evals[k].fresh, r.evals[k].want) /\ SameZ(r.evals[k].long, r.evals[k].want)
                                             THEN {} ELSE {"shared-import"})
+              \* programs in the text format of Context::from_text: a constant is the correctly rounded f32 of its decimal
+              \* literal (literals next to the midpoint of two adjacent floats), every opcode means what its name says
+              [] r.ev = "text" -> (IF r.status = "ok" /\ (~r.finite \/ \A k \in 1..Len(r.want) : SameZ(r.got[k], r.want[k])) THEN {} ELSE {"text"})
               [] OTHER -> {"unknown-event"}
 
 Init == l = 1
